@@ -4,6 +4,7 @@ from ..core import Result
 from . import seqs
 
 ID = "C04"
+ALT_BUILD = True          # a quarter of the workers run the gcc -O0 build (core.py)
 LEVEL = "exploration"
 BUDGET = {"quick": 1600, "thorough": 360000}
 RULE = ("case = container constructed empty or with up to 9 elements, then an op list (push/pop/push_at/pop_at/set/get/"
